@@ -16,7 +16,7 @@ CONSTANTS
   MaxToks = 4
   Nests <- NestsAll
   MsgTypes = {0, 1, 2, 3, 4, 5, 6, 7, 8, 9, 10, 11, 12, 13, 14, 15, 16, 17, 18, 255}
-  MsgBodies = {"none", "empty", "onebyte", "onebyte_ff", "trunc1", "trunchalf", "other", "other2", "valid"}
+  MsgBodies = {"none", "empty", "onebyte", "onebyte_ff", "trunc1", "trunchalf", "other", "other2", "valid", "nested"}
   Design = "validate_first"
 INIT GenInit
 NEXT GenNext
